@@ -15,15 +15,15 @@ def build(inp):
         return DiGraph(V=V, E=E)
     if via == 'incremental':
         g = DiGraph()
-        done = set()
+        done, done_e = set(), set()        # two sets: a node may itself BE a pair of nodes
         for v in V:
             if v not in done:              # add_node / add_edge refuse what is already there
                 g.add_node(v)
                 done.add(v)
         for (a, b) in E:
-            if (a, b) not in done:
+            if (a, b) not in done_e:
                 g.add_edge(a, b)
-                done.add((a, b))
+                done_e.add((a, b))
         return g
     if via == 'kripke':
         return Kripke(S=V, R=E)
@@ -154,7 +154,7 @@ def enum_shard(st, shard, nshards, payload):
             total = _is_total(n, edges)
             ncomp = len(G.scc_partition(n, edges))
             for how in range(6):
-                naming = ('int', 'str', 'revint', 'tuple', 'mixed', 'int')[how]
+                naming = ('int', 'str', 'revint', 'tuple', 'mixed', ('nonefirst', 'nested', 'int')[idx % 3])[how]
                 vias = ['ctor']
                 if how == 1:
                     vias.append('incremental')
